@@ -36,7 +36,7 @@ def run_variant(path, kind):
             return (path, False, 'patch does not apply: ' + p.stdout + p.stderr)
         if kind == 'mutants' and 'nobuild' not in h:
             b = subprocess.run('go build ./... && go vet ./graphql/... >/dev/null 2>&1 || true', shell=True, cwd=repo, capture_output=True, text=True,
-                               env=dict(os.environ, GOFLAGS='-mod=mod', GOPROXY='off', GOWORK='off'))
+                               env=dict(os.environ, GOFLAGS='-mod=mod -trimpath', GOPROXY='off', GOWORK='off'))
             if b.returncode != 0:
                 return (path, False, 'mutant does not compile: ' + b.stderr[-500:])
         env = dict(os.environ, VERIF_REPO=repo, VERIF_OUT=out, VERIF_DIR=VERIF)
